@@ -19,5 +19,15 @@ pub fn replay(name: &str, vals: Vec<Vec<u8>>) -> ReplayOut {
             return out;
         }
     }
+    #[cfg(l21v_verif)]
+    {
+        let incrate: &[fn(&str, Vec<Vec<u8>>) -> ReplayOut] = &[gds21::l21v::replay, layout21raw::l21v::replay, layout21tetris::l21v::replay];
+        for d in incrate {
+            let out = d(name, vals.clone());
+            if out.0 {
+                return out;
+            }
+        }
+    }
     (false, None, vec![], vec![], vec![], 0, false, None)
 }
